@@ -471,3 +471,19 @@ Theorem c11_prop_version_header_left_refuted :
   hist_never_read pv_header_left_cfg 20 10 = Some (1, 5, None)%N /\
   hist_never_read_ok pv_header_set_cfg 20 10 = true.
 Proof. exact header_left_refuted. Qed.
+
+(** The three histories in one statement, for tables that pass [pv_ok] (discharged for today's tables on every run as
+    [prop_format_tables_pass]): whatever was read before - an empty lump, nothing at all, or a format named by the caller -, the
+    format the props are written in is the format a fresh reader of the saved file decodes them with.  Together with
+    [c11_prop_layout_agree] (for every format the reader's and the writer's field ladders agree and have the declared size)
+    this is "static props in every supported format version" for every history that leads to the writer. *)
+Theorem c11_static_prop_format_property : forall c, pv_ok c = true ->
+  forall bv, In bv (c_bsp c) ->
+  (forall h, In h pv_hdrs -> read_empty c bv h 0%N = Some None \/
+                             exists st, read_empty c bv h 0%N = Some (Some st) /\ found_again c bv h st) /\
+  (forall h, In h pv_hdrs -> found_again c bv h 0%N) /\
+  (forall m, (1 <= m <= N.of_nat (List.length (c_members c)))%N ->
+     exists h sz lw, hdr_of c m = Some h /\ size_of c m = Some sz /\ read_empty c bv h m = Some (Some m) /\
+                     write_props c m h = Some (Some (m, m, lw, h)) /\ read_sized c bv h sz m = Some (Some (m, m, lw)) /\
+                     (unique_pair c m = true -> read_sized c bv h sz 0%N = Some (Some (m, m, lw)))).
+Proof. exact pv_property. Qed.
